@@ -84,6 +84,43 @@ pub struct History {
     /// indices into `NAME_POOL`, distinct
     pub names: Vec<u8>,
     pub runs: Vec<Run>,
+    /// (policy index, IPv4 pool subset, IPv6 pool subset): policies already installed before the
+    /// first run, in the shape the agent itself writes (as a previous, correct agent left them),
+    /// under exactly the name the running configuration uses
+    #[serde(default)]
+    pub preinstalled: Vec<(u8, u16, u16)>,
+}
+
+/// the ephemeral state before the first run of a history
+pub fn seed_config(h: &History, names: &[String]) -> Config {
+    let mut cfg = Config::default();
+    for (i, v4, v6) in &h.preinstalled {
+        let Some(name) = names.get(*i as usize) else { continue };
+        if cfg.policies.iter().any(|p| p.name == *name) {
+            continue;
+        }
+        let mut terms = Vec::new();
+        for (family, set) in [
+            ("inet", entries(&pool_set(V4_POOL, *v4))),
+            ("inet6", entries(&pool_set(V6_POOL, *v6))),
+        ] {
+            if !set.is_empty() {
+                terms.push(crate::junos_model::Term {
+                    name: family.to_string(),
+                    family: Some(family.to_string()),
+                    filters: set,
+                    action: Some("accept".into()),
+                });
+            }
+        }
+        cfg.policies.push(crate::junos_model::Policy {
+            name: name.clone(),
+            comment: Some("Last updated at 2024-01-01 00:00:00Z from mp-filter expression AS-SEED".into()),
+            terms,
+            default_action: Some("reject".into()),
+        });
+    }
+    cfg
 }
 
 fn pool_set(pool: &[&str], mask: u16) -> Vec<String> {
@@ -131,6 +168,13 @@ pub fn check_history(h: &History, which: Which, obs: &mut Obs) {
         .iter()
         .map(|i| NAME_POOL[*i as usize % NAME_POOL.len()].to_string())
         .collect();
+    {
+        let seed = seed_config(h, &names);
+        if !seed.policies.is_empty() {
+            obs.class("starts-from-a-preinstalled-state");
+            fake.lock().unwrap().ephemeral = seed;
+        }
+    }
     for (r, run) in h.runs.iter().enumerate() {
         // the running configuration of this run
         let mut stmts = Vec::new();
@@ -770,9 +814,13 @@ pub fn history_strategy(max_runs: usize) -> BoxedStrategy<History> {
                     prop::collection::vec(policy_in(), n).prop_map(|policies| Run { policies }),
                     1..=max_runs,
                 ),
+                prop_oneof![
+                    2 => Just(Vec::new()),
+                    1 => prop::collection::vec((0..n as u8, any::<u16>().prop_map(|m| m & 0xfff), any::<u16>().prop_map(|m| m & 0xfff)), 1..=n),
+                ],
             )
         })
-        .prop_map(|(names, runs)| History { names, runs })
+        .prop_map(|(names, runs, preinstalled)| History { names, runs, preinstalled })
         .boxed()
 }
 
@@ -786,7 +834,7 @@ macro_rules! history_prop {
             }
             fn rule(&self) -> String {
                 format!(
-                    "histories of 1..6 consecutive agent runs from the empty ephemeral instance over 1..4 \
+                    "histories of 1..6 consecutive agent runs from the empty ephemeral instance (or, in a third of the cases, from policies a previous agent left installed under the running configuration's names) over 1..4 \
                      policy names (pool with XML metacharacters, quotes, spaces, non-ASCII, near-duplicates); \
                      before each run every policy is managed / annotated with a malformed expression / \
                      unmanaged / inactive / absent, its evaluation fails or yields a subset of a pool of 12 \
